@@ -35,6 +35,7 @@ CONSTANTS
   B2 = 3
   B3 = 3
   GEN = FALSE
+  ViewDepth = 1
 INVARIANTS
   PolicyHonoured Provenance ActiveInCache
   LiveAtHandout NoStarvation CacheBound IssueMapBound IssueFifoBound RefetchWindow NoWorkerPanic
